@@ -26,9 +26,10 @@ EXTENDS IndexCore, Json, IOUtils, TLC
 
 Rec == ndJsonDeserialize(IOEnv.TRACE)
 
-VARIABLES l, inside, before, seen, mute, info
+VARIABLES l, inside, before, seen, held, mute, info
+\* held[t]: the states that were current while thread t opened the reader it still holds
 
-vars == <<coreVars, l, inside, before, seen, mute, info>>
+vars == <<coreVars, l, inside, before, seen, held, mute, info>>
 
 SeqToSet(s) == {s[i] : i \in DOMAIN s}
 ToFn(list) == [id \in {list[i].id : i \in DOMAIN list} |->
@@ -45,6 +46,7 @@ TInit ==
   /\ inside = "none"
   /\ before = EmptyContents
   /\ seen = [t \in {} |-> {}]
+  /\ held = [t \in {} |-> {}]
   /\ mute = {}
   /\ info = [scn |-> 0]
 
@@ -56,6 +58,7 @@ Reset(e) ==
   /\ inside' = "none"
   /\ before' = ToFn(e.initial)
   /\ seen' = [t \in {} |-> {}]
+  /\ held' = [t \in {} |-> {}]
   /\ mute' = {}
   /\ info' = e
 
@@ -77,7 +80,7 @@ Enter(e) ==
   /\ inside' = e.t
   /\ before' = committed           \* the call's effect becomes visible somewhere inside the section
   /\ seen' = [t \in DOMAIN seen |-> seen[t] \cup {committed'}]
-  /\ UNCHANGED info
+  /\ UNCHANGED <<info, held>>
   /\ IF inside # "none"
        THEN Flag("C05", e, "two threads are inside writer critical sections at the same time")
        ELSE IF ~e.ok THEN Flag("C05", e, "a writer call failed") ELSE UNCHANGED mute
@@ -85,21 +88,38 @@ Enter(e) ==
 Exit(e) ==
   /\ inside' = "none"
   /\ before' = committed
-  /\ UNCHANGED <<coreVars, seen, mute, info>>
+  /\ UNCHANGED <<coreVars, seen, held, mute, info>>
 
 ReadBegin(e) ==
   /\ seen' = [t \in (DOMAIN seen) \cup {e.t} |-> IF t = e.t THEN {committed, before} ELSE seen[t]]
-  /\ UNCHANGED <<coreVars, inside, before, mute, info>>
+  /\ UNCHANGED <<coreVars, inside, before, held, mute, info>>
 
 ReadEnd(e) ==
-  /\ UNCHANGED <<coreVars, inside, before, seen, info>>
+  /\ UNCHANGED <<coreVars, inside, before, seen, held, info>>
   /\ IF ~e.ok THEN Flag("C06", e, "opening a reader or searching failed while writers were active")
      ELSE IF ~(NoDup(e.contents) /\ e.t \in DOMAIN seen /\ ToFn(e.contents) \in seen[e.t])
        THEN Flag("C06", e, "a reader returned contents that were never the committed state during its lifetime")
      ELSE UNCHANGED mute
 
-Final(e) ==
+(* A reader that is kept: the window of its open is [read_begin, open_end]; whatever is    *)
+(* searched through it later - after further commits and compactions - must be the contents *)
+(* of one state of that window ("a reader opened before a change keeps returning the        *)
+(* pre-change results").                                                                     *)
+OpenEnd(e) ==
   /\ UNCHANGED <<coreVars, inside, before, seen, info>>
+  /\ held' = [t \in (DOMAIN held) \cup {e.t} |->
+                IF t = e.t THEN (IF e.t \in DOMAIN seen THEN seen[e.t] ELSE {}) ELSE held[t]]
+  /\ IF ~e.ok THEN Flag("C06", e, "opening a reader failed while writers were active") ELSE UNCHANGED mute
+
+HeldRead(e) ==
+  /\ UNCHANGED <<coreVars, inside, before, seen, held, info>>
+  /\ IF ~e.ok THEN Flag("C06", e, "a search through a reader opened earlier failed")
+     ELSE IF ~(NoDup(e.contents) /\ e.t \in DOMAIN held /\ ToFn(e.contents) \in held[e.t])
+       THEN Flag("C06", e, "a reader opened before a change did not keep returning the contents of its snapshot")
+     ELSE UNCHANGED mute
+
+Final(e) ==
+  /\ UNCHANGED <<coreVars, inside, before, seen, held, info>>
   /\ IF ~(e.ok /\ NoDup(e.contents) /\ ToFn(e.contents) = committed)
        THEN Flag("C05", e, "final contents differ from the serial execution in lock-acquisition order")
      ELSE IF ~(e.reopen_ok /\ NoDup(e.reopen) /\ ToFn(e.reopen) = committed)
@@ -116,7 +136,9 @@ TNext ==
          [] e.ev = "read_begin" -> ReadBegin(e)
          [] e.ev = "read_end" -> ReadEnd(e)
          [] e.ev = "final" -> Final(e)
-         [] OTHER -> UNCHANGED <<coreVars, inside, before, seen, mute, info>>
+         [] e.ev = "open_end" -> OpenEnd(e)
+         [] e.ev = "held_read" -> HeldRead(e)
+         [] OTHER -> UNCHANGED <<coreVars, inside, before, seen, held, mute, info>>
 
 TSpec == TInit /\ [][TNext]_vars
 
